@@ -371,6 +371,55 @@ fn run(sh: &mut Shard) {
             }
         }
     }
+    // thorough: three evaluations at once (every unordered triple of a 6-program subset, <= 2 preemptions)
+    if tier == Tier::Thorough {
+        let set = &SCHED_SET[..6];
+        let mut triple_no = 0u64;
+        for x in 0..set.len() {
+            for y in x..set.len() {
+                for z in y..set.len() {
+                    triple_no += 1;
+                    if triple_no % sh.nshards != sh.shard {
+                        continue;
+                    }
+                    let idx = [set[x], set[y], set[z]];
+                    let programs: Vec<String> = idx.iter().map(|i| BATCH[*i].to_string()).collect();
+                    sh.mine();
+                    sh.begin(&|| format!("all schedules with <= 2 preemptions of three evaluations {:?}", programs));
+                    let mut stats = ExploreStats { schedules: 0, points: 0, interleaved: 0, max_points: 0 };
+                    let mut bad: Option<(String, Vec<usize>)> = None;
+                    sched::explore(&programs, 2, 1_000_000, &mut stats, &mut |run, choices| {
+                        if let Some(e) = &run.error {
+                            bad = Some((format!("MACHINERY {e}"), choices.to_vec()));
+                            return false;
+                        }
+                        for t in 0..3 {
+                            if render(&run.outcomes[t]) != solos[idx[t]] {
+                                bad = Some((format!("thread {t} ({:?}) gave {} but alone it gives {}", programs[t], render(&run.outcomes[t]), solos[idx[t]]), choices.to_vec()));
+                                return false;
+                            }
+                        }
+                        true
+                    });
+                    sh.add(&format!("schedules3:{profile}"), stats.schedules);
+                    sh.add("states", stats.schedules);
+                    sh.add("transitions", stats.points);
+                    sh.add("traces_validated_against_impl", stats.schedules);
+                    sh.nontrivial(&(profile, "triple", idx));
+                    if let Some((why, schedule)) = bad {
+                        if why.starts_with("MACHINERY") {
+                            sh.machinery(why);
+                            return;
+                        }
+                        sh.violation("schedule", json!({"profile": profile, "programs": programs, "schedule": schedule}), why);
+                    }
+                    if !sh.running() {
+                        return;
+                    }
+                }
+            }
+        }
+    }
     let _ = hash64(&0);
 }
 
@@ -392,7 +441,7 @@ fn replay(sh: &mut Shard, case: &Value) {
         let programs: Vec<String> = ps.iter().filter_map(|x| x.as_str().map(|s| s.to_string())).collect();
         let schedule: Vec<usize> = case["schedule"].as_array().map(|a| a.iter().filter_map(|x| x.as_u64().map(|v| v as usize)).collect()).unwrap_or_default();
         let run = sched::run_schedule(&programs, &schedule, 1_000_000);
-        for (t, p) in programs.iter().enumerate() {
+        for (t, p) in programs.iter().enumerate().take(run.outcomes.len()) {
             let solo = sched::solo(p, 1_000_000);
             println!("thread {t}: {p}\n    under the schedule: {}\n    alone:              {}", render(&run.outcomes[t]), render(&solo));
             if render(&run.outcomes[t]) != render(&solo) {
